@@ -115,6 +115,8 @@ type ServerState struct {
 	// HelloOnlyThenDrop: accept, read the hello, then drop the connection on
 	// the first request.
 	DropOnRequest bool
+	// Stall: the server stops reading from its connections.
+	Stall bool
 }
 
 // Conn is a server-side connection.
